@@ -61,7 +61,7 @@ func (x *c14Exec) analyze() {
 		byPayload[r.Payload] = r
 	}
 	deliv := map[string]map[c14DKey]int{} // payload -> (connection, subscription) -> deliveries
-	perConn := map[string]map[int]int{}  // payload -> connection -> deliveries
+	perConn := map[string]map[int]int{}   // payload -> connection -> deliveries
 	connByUID := map[int]*c14ConnRec{}
 
 	for _, cr := range x.all {
